@@ -54,6 +54,7 @@ type smRes struct {
 	HTTP     int      `json:"http"`
 	Logs     []string `json:"logs"`
 	Origin   int64    `json:"origin"`
+	ErrObj   bool     `json:"errobj"` // the response is the synthetic object of vcl_error (no X-Origin-Path header)
 	Panic    string   `json:"panic,omitempty"`
 	Raw      string   `json:"raw,omitempty"`
 }
@@ -198,6 +199,9 @@ func smProject(code int, body []byte) (res smRes) {
 	}
 	if v, ok := rep.ClientResponse.Headers["x-cache-hits"]; ok {
 		res.XHits = &v
+	}
+	if _, ok := rep.ClientResponse.Headers["x-origin-path"]; !ok && res.XCache != nil {
+		res.ErrObj = true
 	}
 	return res
 }
